@@ -387,23 +387,28 @@ impl<'a, Msg> Iterator for NetworkIter<'a, Msg> {
                         msg: &env.msg,
                     };
                     if *count > 1 {
-                        *active = Some((env, *count));
+                        // the first copy is yielded right now
+                        *active = Some((env, *count - 1));
                     }
                     env
                 })
             }
             NetworkIter::Ordered(active, it) => {
                 if let Some((src, dst, messages, index)) = active {
-                    let msg = messages.get(*index).unwrap(); // messages.len() > 1
-                    return Some(Envelope {
-                        src: *src,
-                        dst: *dst,
-                        msg,
-                    });
+                    let (src, dst, messages) = (*src, *dst, *messages);
+                    let msg = messages.get(*index).unwrap(); // index < messages.len()
+                    *index += 1;
+                    if *index == messages.len() {
+                        *active = None;
+                    }
+                    return Some(Envelope { src, dst, msg });
                 }
                 it.next().map(|(&(src, dst), messages)| {
-                    let msg = messages.front().unwrap(); // messages.len() > 1
-                    *active = Some((src, dst, messages, 0));
+                    let msg = messages.front().unwrap(); // channels are never empty
+                    if messages.len() > 1 {
+                        // the first message is yielded right now
+                        *active = Some((src, dst, messages, 1));
+                    }
                     Envelope { src, dst, msg }
                 })
             }
